@@ -308,3 +308,14 @@ def suites(tier, seed):
         Suite("wire-exhaustive", "machine", lambda: gen_exhaustive(tier, seed), monitor=monitor, nontrivial=nontrivial, canon=mg.canon_nondet, candidate_ok=mg.candidate_ok, exhaustive=(tier != "quick"),
               rule="three small frames from two channels (29 bytes): EVERY pair of would-block offsets (%s)" % ("every 2nd offset" if tier == "quick" else "all")),
     ]
+
+
+# --- suites of neighbouring properties that also decide this one (cross-listed after wave 6) ---------
+_suites_before_wave6 = suites
+
+
+def suites(tier, seed):
+    def borrow(mod, names):
+        m = __import__("props." + mod, fromlist=["x"])
+        return [s_ for s_ in m.suites(tier, seed) if s_.name in names]
+    return borrow("c04", ("highest-channel-ids",)) + _suites_before_wave6(tier, seed)
